@@ -49,6 +49,16 @@ EQUIV = [
     ("E09", "penguin-mux/src/task.rs", "            rwnd_threshold: self.default_rwnd_threshold.min(self.rwnd),", "            rwnd_threshold: core::cmp::min(self.rwnd, self.default_rwnd_threshold),", ["C04"]),
     ("E10", "penguin/src/client/mod.rs", "                return Err(Error::ServerDisconnected);\n            }\n            Some(sender) = stream_command_rx.recv()", "                break Err(Error::ServerDisconnected);\n            }\n            Some(sender) = stream_command_rx.recv()", ["C19"]),
 ]
+EQUIV += [
+    # new rules (C08.R6, C06.R3 necessity, C13.R4, C16.R2 fresh-samples, C20.R5, C11.R2, C08.R1 source-before-drain, C10.R5)
+    ("E11", "penguin-mux/src/task.rs", "            self.process_message(msg, true).await.ok();", "            let ignore_bind = true;\n            self.process_message(msg, ignore_bind).await.ok();", ["C08", "C05"]),
+    ("E12", "penguin-mux/src/task.rs", "                let finish_sent = stream_data.disallow_write();\n                if !finish_sent && !inhibit_rst {", "                let finish_sent = stream_data.disallow_write();\n                let sender = stream_data.disallow_read();\n                drop(sender);\n                if !finish_sent && !inhibit_rst {", ["C06", "C05", "C10"]),
+    ("E13", "penguin-mux/src/stream_tools/copy_bidirectional.rs", "                ready!(this.us.poll_obtain_write_permission(cx)).ok_or(BrokenPipe)?;", "                match this.us.poll_obtain_write_permission(cx) {\n                    Poll::Pending => return Poll::Pending,\n                    Poll::Ready(None) => return Poll::Ready(Err(BrokenPipe.into())),\n                    Poll::Ready(Some(())) => {}\n                }", ["C13", "C01"]),
+    ("E14", "penguin-mux/src/task.rs", "            let elapsed_since_last_pong = T::now().duration_since(last_pong_timestamp);", "            let now = T::now();\n            let elapsed_since_last_pong = now.duration_since(last_pong_timestamp);", ["C16"]),
+    ("E15", "cow-bytes/src/pbuf.rs", "            let mut new_chain = Vec::with_capacity(1 + self.data.len() - split_index);\n            let split_elem = self.data[split_index].split_off(remaining);\n            new_chain.push(split_elem);\n            new_chain.extend(self.data.split_off(split_index + 1));\n            new_chain", "            let split_elem = self.data[split_index].split_off(remaining);\n            let mut new_chain = self.data.split_off(split_index + 1);\n            new_chain.insert(0, split_elem);\n            new_chain", ["C20"]),
+    ("E16", "penguin-mux/src/stream_tools/copy_bidirectional.rs", "                    let processed = ready!(this.other.as_mut().poll_write(cx, new_buf))?;", "                    let written = ready!(this.other.as_mut().poll_write(cx, new_buf))?;\n                    let processed = written;", ["C13", "C01", "C02"]),
+    ("E17", "penguin-mux/src/task.rs", "            while let Some(message) = tx_msg_rx.recv().await {", "            loop {\n                let Some(message) = tx_msg_rx.recv().await else { break };", ["C08"]),
+]
 EQUIV = [e for e in EQUIV if e[0] not in ("E07", "E10")]
 
 
